@@ -40,7 +40,8 @@ type Result struct {
 	Exhaustive  bool           `json:"exhaustive"`
 	WallS       float64        `json:"wall_s"`
 
-	seen map[[32]byte]bool
+	seen     map[[32]byte]bool
+	lastCase string // the case counted last: what a panic that escapes into the harness was working on
 }
 
 func (r *Result) stat(k string) { r.Stats[k]++ }
@@ -52,6 +53,7 @@ func (r *Result) statN(k string, n int) {
 // and `nontrivial` the property-specific rule.
 func (r *Result) count(canon string, nontrivial bool) {
 	r.Evaluations++
+	r.lastCase = canon
 	if !nontrivial {
 		return
 	}
@@ -150,7 +152,7 @@ func cmdRun(args []string) int {
 	func() {
 		defer func() {
 			if r := recover(); r != nil {
-				res.fail("panic:in-process", "a panic escaped an entry point called in-process by the harness", map[string]any{"panic": fmt.Sprint(r)}, nil)
+				res.fail("panic:in-process", "a panic escaped an entry point called in-process by the harness", map[string]any{"panic": fmt.Sprint(r), "case_counted_last": truncate(res.lastCase, 1500), "at": firstRepoFrame()}, nil)
 			}
 		}()
 		fn(c)
